@@ -193,7 +193,9 @@ Definition npop_ok (n : nat) (prev : option (list Q)) (p : npop) : bool :=
             | None => forallb (fun w => Qeq_bool w 1) ws                   (* first population: weights 1 *)
             | Some wprev => weights_by (fun prior dens => Some (spec_weight prior dens wprev)) p ws
             end
-         && (if Quantile.var_defined (combine (nth 0 (q_cols p) []) ws)
+         (* when the allowance reaches 1 no digit of the binary64 variance is guaranteed (its denominator cancels
+            completely, the code sees nan/inf and takes its unit-covariance fallback): not estimable, like V1 = V2/V1 *)
+         && (if Quantile.var_defined (combine (nth 0 (q_cols p) []) ws) && negb (Qle_bool 1 (cov_tol ws))
              then cov_by (fun col => Some (spec_cov col ws)) (cov_tol ws) p
              else true)
      end.
